@@ -544,9 +544,41 @@ def handleSrvCfg (opsTok : String) (obs : List String) : String × String :=
     let hasId := ops.any (fun o => match o with | .identity _ => true | _ => false)
     (model, verdict [("no-panic-with-identity", !(hasId && obs == ["panic"]))])
 
+/-- `resume <sops A> <sops B>`: two tonic servers in one process, same certificate (`s1good`), and an ANONYMOUS
+client that does its own TLS with one rustls configuration - it offers B the session it got from A (harness:
+c15_r.rs).  Each acceptor is its own: what B admits is what B's configuration admits of a client without a
+certificate, whatever that client did elsewhere before (seed C15g: a session store shared by all acceptors of the
+process).  Model and oracle: the client-auth mode of each configuration (`Tls.ServerTlsConfig.tlsAcceptor`); the
+roots are irrelevant for a client that presents nothing. -/
+def handleResume (a b : String) (obs : List String) : String × String :=
+  let idOp : SOp := .identity { cert := some [Cert.s1good], keyOk := true, accepted := true }
+  let admits (t : String) : Option Bool :=
+    match serverOps t with
+    | none => none
+    | some ops =>
+      match (ServerTlsConfig.build (idOp :: ops)).tlsAcceptor with
+      | .ok s => some (match s.clientAuth with | .required _ => false | _ => true)
+      | _ => none
+  match admits a, admits b with
+  | some ra, some rb =>
+    let tok (x : Bool) := if x then "ok" else "refused"
+    let model := ["a:" ++ tok ra, "b:" ++ tok rb, "fresh:" ++ tok rb]
+    -- the oracle reads the requirement off the ops: a client CA without `opt:1` (the last one wins) = required
+    let required (t : String) : Bool :=
+      match serverOps t with
+      | some ops => (Spec.Tls.clientCa ops).isSome && !Spec.Tls.authOptional ops
+      | none => false
+    (String.intercalate " " model,
+     verdict [("serve-only-authenticated-clients",
+                 !(required b) || (obs.contains "b:refused" && obs.contains "fresh:refused")),
+              ("anonymous-client-served-where-allowed", required b || obs.contains "fresh:ok"),
+              ("no-hang", !obs.any (·.endsWith ":hang"))])
+  | _, _ => bad
+
 def handle (case obs : List String) : String × String :=
   match case with
   | ["srvcfg", ops] => handleSrvCfg ops obs
+  | ["resume", a, b] => handleResume a b obs
   | _ =>
   match parseCases case with
   | none => bad
